@@ -887,6 +887,16 @@ def gen_code_for_conv(to_type, node, code, codegen):
         code.add((f'conv{from_char}{to_char}',))
 
 
+def gen_code_for_cond(cond, code, codegen):
+    """Evaluate a condition and leave an INTEGER that is zero iff the
+    condition's value is zero. A condition is true when it is non-zero:
+    0.4 must not be rounded to 0 first, nor may 70000& overflow."""
+    codegen.gen_code_for_node(cond, code)
+    if cond.type.is_numeric and cond.type != expr.Type.INTEGER:
+        code.add(('sign',))
+    gen_code_for_conv(expr.Type.INTEGER, cond, code, codegen)
+
+
 def gen_code_for_args(args, param_types, code, codegen):
     for arg, param_type in zip(args, param_types):
         if isinstance(arg, expr.Lvalue):
@@ -1467,8 +1477,7 @@ def gen_loop(node, code, codegen):
 
     code.add(('_label', do_label))
     if node.kind.startswith('do_'):
-        codegen.gen_code_for_node(node.cond, code)
-        gen_code_for_conv(expr.Type.INTEGER, node.cond, code, codegen)
+        gen_code_for_cond(node.cond, code, codegen)
         if node.kind == 'do_until':
             # logical negation: any non-zero value is true, so a
             # bitwise NOT will not do (NOT 2 is -3, still true)
@@ -1478,8 +1487,7 @@ def gen_loop(node, code, codegen):
     gen_code_for_block(node.body, code, codegen)
 
     if node.kind.startswith('loop_'):
-        codegen.gen_code_for_node(node.cond, code)
-        gen_code_for_conv(expr.Type.INTEGER, node.cond, code, codegen)
+        gen_code_for_cond(node.cond, code, codegen)
         if node.kind == 'loop_while':
             code.add(('push0%',), ('cmp',), ('eq',))
         code.add(('jz', do_label))
@@ -1658,8 +1666,7 @@ def gen_if_block(node, code, codegen):
     for cond, body in node.if_blocks:
         else_label = codegen.get_label('else')
 
-        codegen.gen_code_for_node(cond, code)
-        gen_code_for_conv(expr.Type.INTEGER, cond, code, codegen)
+        gen_code_for_cond(cond, code, codegen)
         code.add(('jz', else_label))
 
         if cur_else_stmt and codegen.debug_info_enabled:
@@ -1696,8 +1703,7 @@ def gen_if_stmt(node, code, codegen):
     else_label = codegen.get_label('else')
     endif_label = codegen.get_label('endif')
 
-    codegen.gen_code_for_node(node.cond, code)
-    gen_code_for_conv(expr.Type.INTEGER, node.cond, code, codegen)
+    gen_code_for_cond(node.cond, code, codegen)
     code.add(('jz', else_label))
     gen_code_for_block(node.then_stmts, code, codegen)
     code.add(('jmp', endif_label))
@@ -1990,8 +1996,7 @@ def gen_while_block(node, code, codegen):
     wend_label = codegen.get_label('wend')
 
     code.add(('_label', check_label))
-    codegen.gen_code_for_node(node.cond, code)
-    gen_code_for_conv(expr.Type.INTEGER, node.cond, code, codegen)
+    gen_code_for_cond(node.cond, code, codegen)
     code.add(('jz', wend_label))
 
     code.add(('_label', body_label))
